@@ -4,7 +4,7 @@
     float-free JSON value as a backtick literal, and unquoted identifiers;
     literals holding floating-point numerals are decided by correspondence
     against an independent round-trip expectation).  Statements only. *)
-From JP Require Import Base F64 Value JsonPrint Lexer Parser Proofs.LexProof Proofs.JsonStrProof Proofs.JsonRoundProof.
+From JP Require Import Base F64 Value JsonRead JsonPrint Lexer Parser Proofs.LexProof Proofs.JsonStrProof Proofs.JsonRoundProof Proofs.LexSoundProof.
 
 (** The raw-string spelling (only the quote escaped) of every backslash-free
     string — any code points, any length — lexes to the literal holding exactly
@@ -82,6 +82,39 @@ Print Assumptions C09_json_literal.
 Theorem C09_json_literal_text_is_the_printed_text : forall v d, plain d v -> print_json v = Ok (jtext v).
 Proof. exact print_json_jtext. Qed.
 Print Assumptions C09_json_literal_text_is_the_printed_text.
+
+(** Soundness of the lexer, for every expression and every token in it (not only for an
+    expression that consists of one literal): each token stands at the byte offset of
+    a lexeme that spells exactly that token — a raw-string literal is its text with
+    only the quote unescaped, a backtick literal the JSON value of its text with only
+    the backtick unescaped, a quoted identifier the string its JSON spelling denotes,
+    an identifier its characters, a number the value of its digits ([spell_ok]). *)
+Theorem C09_every_token_denotes_its_lexeme : forall s tl, tokenize s = Ok tl ->
+  Forall (fun x => exists pre mid suf, s = pre ++ mid ++ suf /\ fst x = byte_len pre /\ spell_ok (snd x) mid) tl.
+Proof. exact tokenize_sound. Qed.
+Print Assumptions C09_every_token_denotes_its_lexeme.
+
+(** ... and the token list is exactly a segmentation of the expression into such
+    lexemes and white space, in order, closed by the end token at the expression's length. *)
+Theorem C09_tokens_segment_the_expression : forall s tl, tokenize s = Ok tl ->
+  exists body, tl = rev body ++ [(byte_len s, TEof)] /\ covers body s.
+Proof. exact tokenize_segments. Qed.
+Print Assumptions C09_tokens_segment_the_expression.
+
+Example C09_spell_ok_says :
+  spell_ok (TLiteral (VStr [105; 116; 39; 115])) [39; 105; 116; 92; 39; 115; 39] /\
+  spell_ok (TQuotedIdentifier [97; 10]) [34; 97; 92; 110; 34] /\
+  spell_ok (TLiteral (VNum (PosInt 1))) [96; 49; 96] /\
+  ~ spell_ok (TLiteral (VStr [97])) [39; 98; 39].
+Proof.
+  repeat split.
+  - left. exists [105; 116; 92; 39; 115]. split; reflexivity.
+  - exists [97; 92; 110]. split; [reflexivity|vm_compute; reflexivity].
+  - right. exists [49]. split; [reflexivity|vm_compute; reflexivity].
+  - intros [(body & E & H)|(body & E & _)]; [|discriminate E]. injection E as E. destruct body as [|c [|c2 r]]; try discriminate E.
+    + injection E as <-. discriminate H.
+    + destruct r; discriminate E.
+Qed.
 
 (** An unquoted identifier lexes to exactly its name. *)
 Theorem C09_unquoted_identifier : forall c s, is_alpha_ c = true -> ident_chars s ->
